@@ -1632,6 +1632,9 @@ class Evaluator:
                     return Comp((el_, idx_) if i_ == 0 else (idx_, el_), [(en_, [])], 'list')
         if name == 'dict' and len(args) == 1 and not kw and isinstance(a, Comp) and a.kind in ('list', 'gen') and isinstance(a.elt, (tuple, list)) and len(a.elt) == 2:
             return Comp(tuple(a.elt), a.gens, 'dict')
+        if name == 'range' and 1 <= len(args) <= 3 and not kw and all(isinstance(x, Poly) and x.real_const() is not None and x.real_const().denominator == 1 for x in args):
+            vals_ = range(*[int(x.real_const()) for x in args])
+            if len(vals_) <= 64: return [Poly.const(v_) for v_ in vals_]            # a concrete range is the list of its numbers
         if name == 'zip' and set(kw) <= {'strict'}: kw = {}                  # strict only adds a length check
         if name == 'zip' and args and not kw and all(isinstance(x, (list, tuple, str)) for x in args):
             return [tuple(t_) for t_ in zip(*args)]                         # concrete sequences (a string iterates its characters)
@@ -2609,6 +2612,24 @@ def _match_as_ifs(st):
             return None if any(t is None for t in ts) else ast.BoolOp(op=ast.Or(), values=ts)
         if isinstance(pat, ast.MatchClass) and not pat.patterns and not pat.kwd_patterns:
             return ast.Call(func=ast.Name(id='isinstance', ctx=ast.Load()), args=[st.subject, pat.cls], keywords=[])        # case dict(): / case list():
+        if isinstance(pat, ast.MatchMapping) and all(isinstance(k_, ast.Constant) for k_ in pat.keys) \
+                and all(isinstance(p_, ast.MatchValue) or (isinstance(p_, ast.MatchAs) and p_.pattern is None and p_.name is not None) for p_ in pat.patterns):
+            # case {'a': x, 'b': 1, **rest}: the subject is a mapping with these keys (and the literal values); x and rest are bound in the body
+            sub = st.subject
+            conds = [ast.Compare(left=k_, ops=[ast.In()], comparators=[sub]) for k_ in pat.keys]
+            binds = []
+            for k_, p_ in zip(pat.keys, pat.patterns):
+                item = ast.Subscript(value=sub, slice=k_, ctx=ast.Load())
+                if isinstance(p_, ast.MatchValue): conds.append(ast.Compare(left=item, ops=[ast.Eq()], comparators=[p_.value]))
+                else: binds.append(ast.Assign(targets=[ast.Name(id=p_.name, ctx=ast.Store())], value=item))
+            if pat.rest is not None:
+                comp_ = ast.DictComp(key=ast.Name(id='__k', ctx=ast.Load()), value=ast.Name(id='__v', ctx=ast.Load()),
+                                     generators=[ast.comprehension(target=ast.Tuple(elts=[ast.Name(id='__k', ctx=ast.Store()), ast.Name(id='__v', ctx=ast.Store())], ctx=ast.Store()),
+                                                                   iter=ast.Call(func=ast.Attribute(value=sub, attr='items', ctx=ast.Load()), args=[], keywords=[]),
+                                                                   ifs=[ast.Compare(left=ast.Name(id='__k', ctx=ast.Load()), ops=[ast.NotIn()], comparators=[ast.Tuple(elts=list(pat.keys), ctx=ast.Load())])], is_async=0)])
+                binds.append(ast.Assign(targets=[ast.Name(id=pat.rest, ctx=ast.Store())], value=comp_))
+            body_binds[id(pat)] = binds
+            return ast.BoolOp(op=ast.And(), values=conds) if len(conds) > 1 else (conds[0] if conds else ast.Constant(value=True))
         if isinstance(pat, ast.MatchAs) and pat.pattern is None and pat.name is not None:
             captures.append(pat.name)               # case x [if guard]: always matches, x is the subject
             return ast.Constant(value=True)
@@ -2617,7 +2638,7 @@ def _match_as_ifs(st):
             if t_ is not None: captures.append(pat.name)
             return t_
         return None
-    captures = []
+    captures = []; body_binds = {}
     out = None; cur = None
     pre = []
     for case in st.cases:
@@ -2628,7 +2649,7 @@ def _match_as_ifs(st):
         t = test(case.pattern)
         if t is None: return None
         if case.guard is not None: t = case.guard if (isinstance(t, ast.Constant) and t.value is True) else ast.BoolOp(op=ast.And(), values=[t, case.guard])
-        node = ast.If(test=t, body=list(case.body), orelse=[])
+        node = ast.If(test=t, body=[ast.copy_location(b_, case.body[0]) for b_ in body_binds.get(id(case.pattern), [])] + list(case.body), orelse=[])
         ast.copy_location(node, case.body[0]); ast.fix_missing_locations(node)
         if out is None: out = node
         else: cur.orelse = [node]
